@@ -1,6 +1,6 @@
 (* C07 — proofs about the const model (ConstDefs): stated for arbitrary rule sets satisfying the computable conditions
    rules_ok / crules_ok / r_null_when_const; ConstTheorems.v checks those on the regenerated tables. *)
-From Coq Require Import ZArith List Bool Arith Lia.
+From Coq Require Import String ZArith List Bool Arith Lia.
 From ChaiV Require Import DispatchDefs DispatchProofs ConstDefs.
 Import ListNotations.
 
@@ -144,6 +144,49 @@ Section Step.
     destruct (nth_error (s_datas s) n) eqn:E; try discriminate. injection H as <- <-. exact E.
   Qed.
 
+  (* the functions that take their left operand as a Boxed_Value rebind it only if it is not const *)
+  Lemma bv_accepts_not_const :
+    forall w d same, asg_ok (AsBoxed w) = true -> bv_accepts w d same = true -> d_const d = false.
+  Proof.
+    intros w d same Hok Ha. unfold bv_accepts in Ha. apply existsb_exists in Ha. destruct Ha as (c & Hc & Hall).
+    cbn in Hok. rewrite forallb_forall in Hok. specialize (Hok c Hc). apply existsb_exists in Hok. destruct Hok as (g & Hg & Hk).
+    rewrite forallb_forall in Hall. specialize (Hall g Hg). destruct g; try discriminate.
+    apply negb_true_iff in Hall. exact Hall.
+  Qed.
+  Lemma assign_rows_ok : forall a, In a (cr_assign C) -> asg_ok (snd a) = true.
+  Proof.
+    intros a Hin. unfold crules_ok in HC. bool_hyps.
+    match goal with H : forallb (fun a => asg_ok (snd a)) (cr_assign C) = true |- _ => rewrite forallb_forall in H; exact (H a Hin) end.
+  Qed.
+  Lemma boxed_accepts_not_const :
+    forall op d same, boxed_assign_accepts C op d same = true -> d_const d = false.
+  Proof.
+    intros op d same H. unfold boxed_assign_accepts in H. apply existsb_exists in H. destruct H as (a & Hin & Ha).
+    apply andb_true_iff in Ha. destruct Ha as [_ Ha]. pose proof (assign_rows_ok a Hin) as Hok.
+    destruct (snd a) as [| f | w]; try discriminate. eapply bv_accepts_not_const; eauto.
+  Qed.
+
+  (* Boxed_Value::assign on a record that is not const: the records of l are not touched *)
+  Lemma rebind_inv :
+    forall l s h d y s' r (m : mutk), inv l s -> nth_error (s_datas s) h = Some d -> d_const d = false ->
+      rebind_to s h y = (s', r) ->
+      inv l s' /\ cell s' l = cell s l /\ stable l s s' /\ (d_loc d = l -> is_attempt m = true -> r = RErr \/ r = RTemp).
+  Proof.
+    intros l s h d y s' r m [Hl Hp] Hh Hnc H.
+    assert (Hsame : inv l s /\ cell s l = cell s l /\ stable l s s) by (repeat split; auto using stable_refl).
+    assert (Hne : d_loc d <> l) by (intros He; specialize (Hp h d Hh He); congruence).
+    unfold rebind_to in H.
+    destruct (data_of s y) as [[hy dy]|] eqn:Ey; [| injection H as <- <-; repeat split; try apply Hsame; auto; intros; contradiction ].
+    injection H as <- <-. apply data_of_some in Ey.
+    unfold inv, cell. cbn. repeat split; auto.
+    + intros h0 d0 Hn0 Hl0. cbn in Hn0. destruct (Nat.eq_dec h h0) as [->|Hd].
+      * erewrite nth_error_set_nth_same in Hn0 by eauto. injection Hn0 as <-. cbn in Hl0 |- *. eapply Hp; eauto.
+      * rewrite nth_error_set_nth_other in Hn0 by assumption. eapply Hp; eauto.
+    + intros h0 d0 Hn0 Hl0. exists d0. split; [| split; auto; eapply Hp; eauto ].
+      cbn. rewrite nth_error_set_nth_other; auto. intros ->. rewrite Hh in Hn0. injection Hn0 as <-. contradiction.
+    + intros He. contradiction.
+  Qed.
+
   Lemma attempt_inv :
     forall l s m h d v s' r, inv l s -> nth_error (s_datas s) h = Some d ->
       attempt C R s m h d v = (s', r) ->
@@ -174,16 +217,7 @@ Section Step.
     - (* x := y *)
       destruct (guard_hit C d) eqn:Eg; [injection H as <- <-; repeat split; try apply Hsame; auto|].
       assert (Hnc : d_const d = false) by (destruct (d_const d) eqn:E; auto; rewrite guard_const in Eg by assumption; discriminate).
-      assert (Hne : d_loc d <> l) by (intros He; specialize (Hconst He); congruence).
-      destruct (data_of s y) as [[hy dy]|] eqn:Ey; [| injection H as <- <-; repeat split; try apply Hsame; auto; intros; contradiction ].
-      injection H as <- <-. apply data_of_some in Ey.
-      unfold inv, cell. cbn. repeat split; auto.
-      + intros h0 d0 Hn0 Hl0. cbn in Hn0. destruct (Nat.eq_dec h h0) as [->|Hd].
-        * erewrite nth_error_set_nth_same in Hn0 by eauto. injection Hn0 as <-. cbn in Hl0 |- *. eapply Hp; eauto.
-        * rewrite nth_error_set_nth_other in Hn0 by assumption. eapply Hp; eauto.
-      + intros h0 d0 Hn0 Hl0. exists d0. split; [| split; auto; eapply Hp; eauto ].
-        cbn. rewrite nth_error_set_nth_other; auto. intros ->. rewrite Hh in Hn0. injection Hn0 as <-. contradiction.
-      + intros He. contradiction.
+      eapply rebind_inv; eauto. split; auto.
     - destruct (cr_prefix_guard C && d_const d); [injection H as <- <-; repeat split; try apply Hsame; auto|].
       destruct (mut_ptr_null R d) eqn:En; [injection H as <- <-; repeat split; try apply Hsame; auto|].
       injection H as <- <-. apply Hmut. unfold mut_ptr_null in En. rewrite HN in En. exact En.
@@ -200,6 +234,12 @@ Section Step.
       + destruct (conv && d_arith d); injection H as <- <-; repeat split; try apply Hsame; auto.
     - destruct (d_arith d); injection H as <- <-; repeat split; try apply Hsame; auto.
     - injection H as <- <-. repeat split; try apply Hsame; auto.
+    - (* `op`(x, y) on a function object *)
+      destruct (boxed_assign_accepts C op d same) eqn:Ea; [| injection H as <- <-; repeat split; try apply Hsame; auto ].
+      eapply rebind_inv; eauto using boxed_accepts_not_const. split; auto.
+    - destruct (guard_hit C d) eqn:Eg; [injection H as <- <-; repeat split; try apply Hsame; auto|].
+      destruct (boxed_assign_accepts C op d same) eqn:Ea; [| injection H as <- <-; repeat split; try apply Hsame; auto ].
+      eapply rebind_inv; eauto using boxed_accepts_not_const. split; auto.
   Qed.
 
   Lemma exec_inv :
@@ -308,3 +348,96 @@ Proof.
   - unfold cell. cbn. rewrite app_nth2 by lia. rewrite Nat.sub_diag. reflexivity.
   - intros l Hl. unfold cell. cbn. rewrite app_nth1 by assumption. reflexivity.
 Qed.
+
+(* ---------------------------------------------------------------------------------------------- *)
+(** * Host entry points, registration, functions registered under assignment-like names *)
+
+Ltac split_entries H :=
+  unfold entries_ok in H;
+  let H1 := fresh "E1" in let H2 := fresh "E2" in let H3 := fresh "E3" in let H4 := fresh "E4" in
+  apply andb_true_iff in H; destruct H as [H H4]; apply andb_true_iff in H; destruct H as [H H3];
+  apply andb_true_iff in H; destruct H as [H1 H2].
+
+(* every entry point named const_* yields a Boxed_Value whose const flag is set, whatever it is given *)
+Theorem const_entry_const :
+  forall C e tconst, entries_ok C = true -> In e (cr_entries C) -> prefix "const_"%string (en_name e) = true -> entry_const e tconst = true.
+Proof.
+  intros C e tc H Hin Hp. split_entries H.
+  rewrite forallb_forall in E1. specialize (E1 e Hin). rewrite Hp in E1. cbn in E1.
+  unfold entry_const. destruct (en_cmode e); auto; discriminate.
+Qed.
+(* no entry point takes const away *)
+Theorem entry_keeps_const :
+  forall C e, entries_ok C = true -> In e (cr_entries C) -> entry_const e true = true.
+Proof.
+  intros C e H Hin. split_entries H.
+  rewrite forallb_forall in E2. specialize (E2 e Hin).
+  unfold entry_const. destruct (en_cmode e); auto.
+Qed.
+(* function objects kept for lookup by name are const *)
+Theorem fnobj_const :
+  forall C, entries_ok C = true -> exists e, find_entry C (fst (cr_fnobj C)) (snd (cr_fnobj C)) = Some e /\ forall tc, entry_const e tc = true.
+Proof.
+  intros C H. split_entries H.
+  destruct (find_entry C (fst (cr_fnobj C)) (snd (cr_fnobj C))) as [e|]; try discriminate.
+  exists e. split; auto. intros tc. unfold entry_const. destruct (en_cmode e); auto; discriminate.
+Qed.
+(* a registration function named ..._const.. accepts only const values *)
+Theorem const_registration :
+  forall C r d, entries_ok C = true -> In r (cr_regs C) -> contains "_const"%string (rg_name r) = true -> reg_accepts r d = true -> d_const d = true.
+Proof.
+  intros C r d H Hin Hn Ha. split_entries H.
+  rewrite forallb_forall in E3. specialize (E3 r Hin). rewrite Hn in E3. cbn in E3.
+  unfold reg_accepts in Ha. rewrite E3 in Ha. exact Ha.
+Qed.
+
+(* sharing an object through an entry point: the new name denotes the object (or, for the copying overload, a fresh one with the same
+   value) with the const flag the entry point computes *)
+Lemma share_data :
+  forall s e tc sh ar l x,
+    exists h d, data_of (share s e tc sh ar l x) x = Some (h, d) /\ d_const d = entry_const e tc /\ d_ret d = false
+                /\ d_loc d = (if en_copies e then length (s_cells s) else l)
+                /\ cell (share s e tc sh ar l x) (d_loc d) = cell s l
+                /\ (forall l', l' < length (s_cells s) -> cell (share s e tc sh ar l x) l' = cell s l').
+Proof.
+  intros. unfold share. destruct (en_copies e); cbn.
+  - eexists _, _. split.
+    + unfold data_of. cbn. rewrite Nat.eqb_refl. rewrite nth_error_app2 by lia. rewrite Nat.sub_diag. reflexivity.
+    + cbn. repeat split; auto.
+      * unfold cell. cbn. rewrite app_nth2 by lia. rewrite Nat.sub_diag. reflexivity.
+      * intros l' Hl'. unfold cell. cbn. rewrite app_nth1 by assumption. reflexivity.
+  - eexists _, _. split.
+    + unfold data_of. cbn. rewrite Nat.eqb_refl. rewrite nth_error_app2 by lia. rewrite Nat.sub_diag. reflexivity.
+    + cbn. repeat split; auto.
+Qed.
+(* an object all of whose Data records are const stays so when it is shared once more through an entry point that yields const
+   (or that copies); in particular an object nothing refers to yet *)
+Lemma share_protected :
+  forall s e tc sh ar l x l0, l0 < length (s_cells s) -> protected l0 s -> (l = l0 -> entry_const e tc = true \/ en_copies e = true) ->
+    l0 < length (s_cells (share s e tc sh ar l x)) /\ protected l0 (share s e tc sh ar l x).
+Proof.
+  intros s e tc sh ar l x l0 Hl Hp He. unfold share. destruct (en_copies e) eqn:Ec; cbn.
+  - split; [rewrite app_length; cbn; lia|].
+    intros h d Hn Hd. cbn in Hn. apply nth_error_app_new in Hn. destruct Hn as [Hn|[_ ->]]; [eapply Hp; eauto|]. cbn in Hd. lia.
+  - split; auto.
+    intros h d Hn Hd. cbn in Hn. apply nth_error_app_new in Hn. destruct Hn as [Hn|[_ ->]]; [eapply Hp; eauto|]. cbn in Hd |- *.
+    destruct (He Hd) as [H|H]; [exact H | discriminate].
+Qed.
+
+(* no function registered under an assignment-like name gets mutable access to, or rebinds, a const value *)
+Theorem assign_rejects_const :
+  forall C R a d, crules_ok C = true -> rules_ok R = true -> r_null_when_const R = true ->
+    In a (cr_assign C) -> d_const d = true -> asg_access C R (snd a) d = false.
+Proof.
+  intros C R a d HC HR HN Hin Hd. pose proof (assign_rows_ok C HC a Hin) as Hok.
+  destruct (snd a) as [| f | w]; cbn [asg_access].
+  - unfold mut_ptr_null. rewrite HN, Hd. reflexivity.
+  - destruct (form_grant R f d) eqn:Eg; auto. apply grant_mut_not_const in Eg; auto. congruence.
+  - apply orb_false_iff. split.
+    + destruct (bv_accepts w d true) eqn:E; auto. eapply bv_accepts_not_const in E; eauto. congruence.
+    + destruct (bv_accepts w d false) eqn:E; auto. eapply bv_accepts_not_const in E; eauto. congruence.
+Qed.
+(* ... and neither does a stdlib wrapper *)
+Theorem wrapper_rejects_const :
+  forall R f d, rules_ok R = true -> d_const d = true -> form_grant R f d <> GMut.
+Proof. intros R f d HR Hd H. apply grant_mut_not_const in H; auto. congruence. Qed.
